@@ -149,7 +149,7 @@ def run(repo, rep, tier):
     rep.ob("C04.R3", hv[0] if hv else fe, "version byte written at [0]", bool(hv) and hv[2] == "5", "",
            key="C04.R3@encoder:version")
     ht = h.get("[1]")
-    rep.ob("C04.R3", ht[0] if ht else fe, "type byte written at [1]", bool(ht) and ht[2] == "cell_type", "",
+    rep.ob("C04.R3", ht[0] if ht else fe, "type byte written at [1]", bool(ht) and ht[2] == h.get("__type_var__", "cell_type"), "",
            key="C04.R3@encoder:type")
     hf = h.get("[8:12]")
     okf = bool(hf) and hf[1] is not None and hf[1][0] in ("<i", "<I") and hf[1][2] == enc.flags_var
